@@ -19,6 +19,10 @@ PROP = {
                     "'store responds' is read as 'every flush succeeds' (F11 documents the other reading)"],
 }
 
+PROP["jobs"].append({"harness": "h_stream", "comp": "pipe", "n_quick": 400, "n_thorough": 6000, "timeout": 3000,
+                     "why": "a run of the real v1 node graph with a graceful stop at a random instant hangs, panics, or its trace (writes, acks, "
+                            "teardown-time nacks) is not a behaviour of the v1 pipeline model"})
+
 META = {
     "text": "Lean 4: for every healthy run of M3 (all interleavings of acks, flush triggers, callbacks, delivery retries and the "
             "statements of Source.Teardown), when Teardown has returned nil: pending and delivery queue empty, every Ack of the "
